@@ -357,14 +357,14 @@ def apply1(eng, st, name, x, ty):
     if name == "atan":
         a, key = _inv_atom(eng, st, "atan", [e], -math.pi / 2, math.pi / 2)
         if _once(st, key):
-            st.assume(z3.And(a.C > 0, a.S == e * a.C, a.t > -PI(eng) / 2, a.t < PI(eng) / 2))
+            st.assume(eng.mark_def(z3.And(a.C > 0, a.S == e * a.C, a.t > -PI(eng) / 2, a.t < PI(eng) / 2)))
         return _rnd(eng, SV(a.t, d=_d_scale(x, 1 / (1 + e * e))), ty)
     if name == "asin":
         a, key = _inv_atom(eng, st, "asin", [e], -math.pi / 2, math.pi / 2)
         if _once(st, key):
             eng.add_obligation(st, "def:asin-argument-in-[-1,1]", "def", z3.And(e >= -1, e <= 1))
             st.assume(z3.And(e >= -1, e <= 1))
-            st.assume(z3.And(a.S == e, a.C >= 0))
+            st.assume(eng.mark_def(z3.And(a.S == e, a.C >= 0)))
         d = None
         if x.d:
             eng.add_obligation(st, "def:asin-derivative-away-from-+-1", "def", a.C != 0)
@@ -376,7 +376,7 @@ def apply1(eng, st, name, x, ty):
         if _once(st, key):
             eng.add_obligation(st, "def:acos-argument-in-[-1,1]", "def", z3.And(e >= -1, e <= 1))
             st.assume(z3.And(e >= -1, e <= 1))
-            st.assume(z3.And(a.C == e, a.S >= 0))
+            st.assume(eng.mark_def(z3.And(a.C == e, a.S >= 0)))
         d = None
         if x.d:
             eng.add_obligation(st, "def:acos-derivative-away-from-+-1", "def", a.S != 0)
@@ -401,8 +401,8 @@ def apply2(eng, st, name, x, y, ty):
             nz = z3.Or(ox != 0, oy != 0)
             eng.add_obligation(st, "def:atan2-of-nonzero-vector", "def", nz)
             st.assume(nz)
-            st.assume(z3.And(r > 0, r * r == ox * ox + oy * oy, a.S * r == oy, a.C * r == ox,
-                             a.t > -PI(eng), a.t <= PI(eng)))
+            st.assume(eng.mark_def(z3.And(r > 0, r * r == ox * ox + oy * oy, a.S * r == oy, a.C * r == ox,
+                                          a.t > -PI(eng), a.t <= PI(eng))))
         d = None
         dy = x.d if isinstance(x, SV) else None
         dx = y.d if isinstance(y, SV) else None
@@ -423,7 +423,7 @@ def apply2(eng, st, name, x, y, ty):
         ym = RV(str(q)) * PI(eng) if q else realval(yy)
         k = eng.fresh("fmodk", z3.IntSort())
         r = ex - z3.ToReal(k) * ym
-        st.assume(z3.And(z3.Implies(ex >= 0, z3.And(r >= 0, r < ym)), z3.Implies(ex < 0, z3.And(r <= 0, r > -ym))))
+        st.assume(eng.mark_def(z3.And(z3.Implies(ex >= 0, z3.And(r >= 0, r < ym)), z3.Implies(ex < 0, z3.And(r <= 0, r > -ym)))))
         return SV(r, d=x.d if isinstance(x, SV) else None)
     if name == "pow":
         return _pow(eng, st, x, y, ty)
@@ -473,7 +473,7 @@ def _log(eng, st, x, ty):
     if _once(st, ("log", key)):
         eng.add_obligation(st, "def:log-of-positive", "def", e > 0)
         st.assume(e > 0)
-        st.assume(z3.And(z3.Implies(e > 1, L > 0), z3.Implies(e < 1, L < 0), z3.Implies(e == 1, L == 0)))
+        st.assume(eng.mark_def(z3.And(z3.Implies(e > 1, L > 0), z3.Implies(e < 1, L < 0), z3.Implies(e == 1, L == 0))))
     return SV(L, d=_d_scale(x, 1 / e))
 
 
